@@ -182,6 +182,26 @@ func runC14(r *vhlib.Run) {
 			s, _, _ := makeXFStream(randXWConfig(rng), randXWOps(rng, 3+rng.Intn(8), 60))
 			pool = append(pool, s)
 		}
+		// one index listing many chunks (the record slice has spare capacity afterwards), and
+		// streams with several indexes whose chunks differ in size
+		{
+			var ops []xwOp
+			for k := 0; k < 20+rng.Intn(10); k++ {
+				ops = append(ops, xwOp{Kind: 'w', Data: vhlib.RandBytes(rng, 8)})
+			}
+			ops = append(ops, xwOp{Kind: 'c'})
+			s, _, _ := makeXFStream(xwCfg{Level: 6, ChunkSize: 8, Index: -1}, ops)
+			pool = append(pool, s)
+			for _, idx := range []int64{2, 3} {
+				var ops2 []xwOp
+				for k := 0; k < 7; k++ {
+					ops2 = append(ops2, xwOp{Kind: 'w', Data: vhlib.RandBytes(rng, 1+rng.Intn(40))}, xwOp{Kind: 'f', Mode: 1})
+				}
+				ops2 = append(ops2, xwOp{Kind: 'c'})
+				s2, _, _ := makeXFStream(xwCfg{Level: 6, ChunkSize: 64, Index: idx}, ops2)
+				pool = append(pool, s2)
+			}
+		}
 		pool = append(pool, gen.Mutate(rng, pool[0]), pool[1][:len(pool[1])/2], nil)
 		type xact func(x *xflate.Reader)
 		acts := map[string]xact{
@@ -247,12 +267,16 @@ func runC14(r *vhlib.Run) {
 			fw.Write(target)
 			ferr := fw.Close()
 			fin, fout := fw.Offsets()
-			for faulty := 0; faulty < 2; faulty++ {
+			for faulty := 0; faulty < 3; faulty++ {
 				for a1 := range acts {
 					for a2 := range acts {
 						var first io.Writer = &bytes.Buffer{}
-						if faulty == 1 {
+						switch faulty {
+						case 1:
 							first = &faultSink{At: rng.Intn(30), Kind: rng.Intn(2)}
+						case 2:
+							// the first destination fails at once, having accepted nothing
+							first = &faultSink{At: 0, Kind: 0}
 						}
 						w := wc.New(first)
 						pan := ""
@@ -273,11 +297,97 @@ func runC14(r *vhlib.Run) {
 						r.Eval("writer:"+wc.Name, true, []byte(fmt.Sprint(wc.Name, a1, a2, faulty, len(target))))
 						if pan != "" || !bytes.Equal(gb.Bytes(), fb.Bytes()) || vhlib.ErrClass(gerr) != vhlib.ErrClass(ferr) || gin != fin || gout != fout {
 							r.Violate("reset-not-fresh", fmt.Sprintf("%s.Writer: after %s,%s (faulty sink: %v) + Reset: %d bytes err=%v in=%d out=%d; fresh: %d bytes err=%v in=%d out=%d %s",
-								wc.Name, acts[a1].Name, acts[a2].Name, faulty == 1, gb.Len(), gerr, gin, gout, fb.Len(), ferr, fin, fout, pan),
-								map[string]interface{}{"type": wc.Name + ".Writer", "history": []string{acts[a1].Name, acts[a2].Name}, "faulty_first_sink": faulty == 1, "payload": vhlib.Hex(target)})
+								wc.Name, acts[a1].Name, acts[a2].Name, faulty > 0, gb.Len(), gerr, gin, gout, fb.Len(), ferr, fin, fout, pan),
+								map[string]interface{}{"type": wc.Name + ".Writer", "history": []string{acts[a1].Name, acts[a2].Name}, "faulty_first_sink": faulty, "payload": vhlib.Hex(target)})
 						}
 					}
 				}
+			}
+		}
+	}
+	// A Writer that is closed (or abandoned) and later Reset must not share anything with a
+	// Writer created in between: both are then used alternately and each destination must
+	// hold exactly what a fresh Writer produces for its own data.
+	for _, wc := range wcodecs() {
+		fresh := func(parts ...[]byte) []byte {
+			var b bytes.Buffer
+			w := wc.New(&b)
+			for _, p := range parts {
+				w.Write(p)
+			}
+			w.Close()
+			return b.Bytes()
+		}
+		nrep := 6
+		if !r.Quick() {
+			nrep = 60
+		}
+		for rep := 0; rep < nrep; rep++ {
+			d1a, d1b := vhlib.RandBytes(rng, 1+rng.Intn(400)), vhlib.RandBytes(rng, 1+rng.Intn(2000))
+			d2a, d2b := vhlib.RandBytes(rng, 1+rng.Intn(400)), vhlib.RandBytes(rng, 1+rng.Intn(2000))
+			how := rep % 3 // 0: closed, 1: closed twice via Reset cycle, 2: abandoned without Close
+			var junk bytes.Buffer
+			w1 := wc.New(&junk)
+			w1.Write(vhlib.RandBytes(rng, rng.Intn(300)))
+			switch how {
+			case 0:
+				w1.Close()
+			case 1:
+				w1.Close()
+				w1.Reset(&junk)
+				w1.Close()
+			}
+			var b1, b2 bytes.Buffer
+			w2 := wc.New(&b2) // created in between
+			var w3 wrt
+			var b3 bytes.Buffer
+			if how == 1 {
+				w3 = wc.New(&b3)
+			}
+			w1.Reset(&b1)
+			pan := ""
+			var e1, e2 error
+			func() {
+				defer func() {
+					if p := recover(); p != nil {
+						pan = fmt.Sprint(p)
+					}
+				}()
+				w1.Write(d1a)
+				w2.Write(d2a)
+				if w3 != nil {
+					w3.Write(d2a)
+				}
+				w1.Flush(1)
+				w2.Write(d2b)
+				w1.Write(d1b)
+				if w3 != nil {
+					w3.Write(d1b)
+					w3.Close()
+				}
+				e2 = w2.Close()
+				e1 = w1.Close()
+			}()
+			r.Eval("writers-side-by-side:"+wc.Name, true, d1a, d1b, d2a, d2b)
+			want1 := fresh(d1a, d1b)
+			if _, sup := wc.New(ioutil.Discard).Flush(1); sup {
+				var b bytes.Buffer
+				w := wc.New(&b)
+				w.Write(d1a)
+				w.Flush(1)
+				w.Write(d1b)
+				w.Close()
+				want1 = b.Bytes()
+			}
+			bad := pan != "" || e1 != nil || e2 != nil || !bytes.Equal(b1.Bytes(), want1) || !bytes.Equal(b2.Bytes(), fresh(d2a, d2b))
+			if w3 != nil && !bytes.Equal(b3.Bytes(), fresh(d2a, d1b)) {
+				bad = true
+			}
+			if bad {
+				r.Violate("reset-not-fresh", fmt.Sprintf("%s.Writer reused through Reset next to a Writer created in between (%s): outputs %d/%d bytes, fresh %d/%d, errors %v %v %s",
+					wc.Name, []string{"after Close", "after Close, Reset, Close", "abandoned"}[how], b1.Len(), b2.Len(), len(want1), len(fresh(d2a, d2b)), e1, e2, pan),
+					map[string]interface{}{"type": wc.Name + ".Writer", "kind": "writer-created-in-between", "first_writer_was": how,
+						"d1a": vhlib.Hex(d1a), "d1b": vhlib.Hex(d1b), "d2a": vhlib.Hex(d2a), "d2b": vhlib.Hex(d2b)})
 			}
 		}
 	}
